@@ -100,7 +100,9 @@ def run_shard(spec, res):
             r0 = svc.client.send(corp[name])
             events = watch.stop()
             twin = svc.dump()
-            if not 200 <= r0.status < 300:
+            if name.startswith('REFUSED') and 400 <= r0.status < 500:
+                res.count('refused_requests')
+            elif not 200 <= r0.status < 300:
                 res.violation('C18|corpus-request-not-accepted|%s' % name,
                               '%s answered %d' % (name, r0.status), {})
                 continue
